@@ -1849,7 +1849,7 @@ class StridedInterval:
 
         result_interval = []
         for si in splitted_si:
-            lb = ~si.upper_bound
+            lb = ~si._last_member
             ub = ~si.lower_bound
             stride = self.stride
 
